@@ -283,7 +283,8 @@ def names_var(warnings, name) -> bool:
 
 # ----------------------------------------------------------------------------- generators
 PIECES = ["Hello ", "\n", " - ", "x", "eté über ", "a.b*c?", "\\1", "\\g<0>", "$1", "(", ")", "[z]", "|", "#if ",
-          ">", "?", "/each", " ", "\t", "%s", "'", '"', ", ", ": ", "Dear", "0", "<b>", "\\", "^$", "\r\n", "42", "else"]
+          ">", "?", "/each", " ", "\t", "%s", "'", '"', ", ", ": ", "Dear", "0", "<b>", "\\", "^$", "\r\n", "42", "else",
+          "\ue000", "\ue0001", "\ue0002x"]   # private-use characters (an escaping repair must round-trip them)
 OUTER = ["user", "title", "count", "topic", "role", "mode", "lang", "note", "tag", "city", "qty", "flag",
          "_x", "a1", "Name2", "größe", "v", "n_0"]
 FIELDS = ["fname", "price", "sku", "k1"]
@@ -363,7 +364,8 @@ def _simple_segment(rng, names, inc_targets, in_each):
     if inc_targets is not None:
         if inc_targets and rng.random() < 0.85:
             return ("inc", rng.choice(inc_targets))
-        return ("inc", rng.choice(UNKNOWN_INC))
+        if rng.random() < 0.4:
+            return ("inc", rng.choice(UNKNOWN_INC))
     return ("text", gen_text(rng))
 
 
